@@ -153,6 +153,7 @@ pub trait Flt: Copy + PartialOrd + core::fmt::Debug + 'static {
     fn from_fl(f: &Fl) -> Self;
     fn to_fl(self) -> Fl;
     fn bits64(self) -> u64;
+    fn from_bits64(b: u64) -> Self;
     fn prim1(self, op: &str) -> Option<Self>;
     fn prim2(self, b: Self, op: &str) -> Option<Self>;
     fn prim3(self, b: Self, c: Self, op: &str) -> Option<Self>;
@@ -171,6 +172,9 @@ macro_rules! impl_flt {
             }
             fn bits64(self) -> u64 {
                 self.to_bits() as u64
+            }
+            fn from_bits64(b: u64) -> Self {
+                Self::from_bits(b as _)
             }
             fn prim1(self, op: &str) -> Option<Self> {
                 Some(match op {
